@@ -91,7 +91,7 @@ COMMON = dict(
     locals={"colors": Dict(STR, INT), "usedNeighbourColors": Set(INT), "groups": Ref("C06_DDList"), "g0": GD, "gnow": GD, "cur": List(STR)},
     ghost_vars={"g0": (GD, "{}"), "gnow": (GD, "{}"), "cur": (List(STR), "[]")},
     merge_branches=False,
-    seq_bridge=True,  # (positional facts of `xs + [x]` as assumptions with triggers: z3-5.1 does not derive them from the sequence theory under the quantified hypotheses)
+
 )
 _PROPER = "all(all(implies(y in colors and x != y, colors[x] != colors[y]) for y in adjacency[x]) for x in colors)"
 _G = "groups.d"
